@@ -303,8 +303,7 @@ func TestC18(t *testing.T) {
 	tf.add(fmt.Sprintf("TPhaseString true %s", coqBytes([]byte(resource.PhaseTearingDown.String()))))
 	tj = append(tj, map[string]any{"phase_string": 0}, map[string]any{"phase_string": 1})
 
-	rep.CoqFiles = append(rep.CoqFiles, tf.finish(t, dir))
-	rep.CaseFiles = append(rep.CaseFiles, writeJSONL(t, dir, "C18_text_cases.jsonl", tj))
+	tf.finishSharded(t, dir, rep, tj, 400)
 
 	// ---- (b) framing with the toy compressor ----
 	ff := newCoqFile("C18_frame_cases", []string{"Frame", "CodecCheck"}, "fcase", "frame_mismatches")
@@ -393,8 +392,7 @@ func TestC18(t *testing.T) {
 		}
 	}
 
-	rep.CoqFiles = append(rep.CoqFiles, ff.finish(t, dir))
-	rep.CaseFiles = append(rep.CaseFiles, writeJSONL(t, dir, "C18_frame_cases.jsonl", fj))
+	ff.finishSharded(t, dir, rep, fj, 400)
 
 	// ---- (c)+(d) real codecs ----
 	keys := [][]byte{make([]byte, 32), make([]byte, 32)}
